@@ -31,6 +31,23 @@ Theorem C10_vector_dalpha_range : forall alpha ps,
 Proof. exact vector_dalpha_range. Qed.
 Print Assumptions C10_vector_dalpha_range.
 
+(* vector enforcement with the clamp of props/C10/fix_2.diff: whatever the bounds and whatever the
+   relation between u and the start (no premise - covers u = fl(u0 + alpha du) perturbed by rounding),
+   no entry is moved opposite to the step or beyond it *)
+Theorem C10_vector_clamped_along_step : forall alpha es e',
+  0 < alpha -> In e' (combine es (enforce_vector alpha es)) ->
+  between (e_u (fst e') - alpha * e_du (fst e')) (e_u (fst e')) (e_u (snd e')).
+Proof. exact vector_clamped_along_step. Qed.
+Print Assumptions C10_vector_clamped_along_step.
+
+(* ... which the kernel before that fix violates as soon as u is not exactly u0 + alpha du *)
+Theorem C10_vector_unclamped_refuted :
+  let es := [mkent 8 8 None (Some 100); mkent (2003#2000) (1#1000) None (Some 1)] in
+  exists a b, enforce_vector_cur 1 es = [a; b] /\ vec_dalpha es == 3#2 /\
+              e_u a == -4 /\ ~ between (8 - 1 * 8) 8 (e_u a).
+Proof. exact vector_unclamped_refuted. Qed.
+Print Assumptions C10_vector_unclamped_refuted.
+
 (* wall enforcement: an entry moved to its bound has a zero step afterwards *)
 Theorem C10_wall_du_zero : forall alpha e, ~ change e == 0 -> e_du (wall_ent alpha e) = 0.
 Proof. exact wall_du_zero. Qed.
@@ -69,7 +86,7 @@ Print Assumptions C10_scaled_bounds_reversed_refuted.
 Theorem C10_phys_update_present_code_refuted :
   let p := mkpent 1 9 (Some (1#2)) (Some 3) (1#2) 2 in
   let p2 := mkpent (1#2) 4 None (Some 2) (-1) 0 in
-  (forall m, exists x, phys_update_cur m 1 [p] = [x] /\ x == 1#2 /\ x < p_x0 p /\ 0 < p_step p) /\
+  (forall m, m <> Vector -> exists x, phys_update_cur m 1 [p] = [x] /\ x == 1#2 /\ x < p_x0 p /\ 0 < p_step p) /\
   (forall m, exists x, phys_update_cur m 1 [p2] = [x] /\ x == 9#2 /\ ~ inb (p_lo p2) (p_hi p2) x).
 Proof. exact phys_update_cur_refuted. Qed.
 Print Assumptions C10_phys_update_present_code_refuted.
